@@ -1079,7 +1079,12 @@ func runDasCheck(t *testing.T, prop string) {
 	rep.Set("event_class_counts", allEvents)
 	rep.Set("explanation", "exhaustive within the stated depth bound per configuration unless 'capped' is set for a run")
 	// SC part: statistics / checkpoint requests overlapping running workers (das_sc_test.go)
-	if !dasSC(t, rep, prop, rep.Deadline(240*time.Second, 60*time.Minute)) {
+	// its budget starts when the event search has ended (it must not be starved by it)
+	scBudget := 90 * time.Second
+	if rep.Tier == "thorough" {
+		scBudget = 15 * time.Minute
+	}
+	if !dasSC(t, rep, prop, time.Now().Add(scBudget)) {
 		exhaustive = false
 	}
 	rep.SetExhaustive(exhaustive)
